@@ -12,6 +12,7 @@ import zlib
 
 from . import og
 from rules import templates as T
+from rules import anchors as _A
 
 FIXTURE = '''
 pub mod fixture_mod {
@@ -423,8 +424,8 @@ class Renderer:
 
     def emit(self, ev):
         sk = ev.skeleton()
-        if ev.holes() and len(ev.parts) == 1 and ev.parts[0][1][0] == "const":
-            return  # {HEADER} / {HELPERS}: supplied by the harness
+        if ev.fn in (_A.HEADER_WRITER, _A.HELPERS_WRITER) or (ev.holes() and len(ev.parts) == 1 and ev.parts[0][1][0] == "const"):
+            return  # the fixed text written by the header / helpers writers: supplied by the harness
         roles = self.roles(ev)
         text = ""
         hi = 0
@@ -515,8 +516,7 @@ def sample(F, X, index, target_ctx=None):
 def assemble(F, X, indices, targets=None):
     """Segments for the witness crate: header, fixture, one module per sample, helpers, witness tail with per-sample assertions."""
     from . import witness as W
-    header = W.const_value(F, "write_xml::HEADER")
-    helpers = W.const_value(F, "write_xml::HELPERS")
+    header, helpers = W.fixed_texts(F)
     segs = [W.Segment("header", header), W.Segment("fixture", FIXTURE)]
     maps = {}
     asserts = []
